@@ -40,7 +40,31 @@ def _native_sets():
         _core._PATCH_REGISTRATIONS.pop(entity, None)
 
 
+def _no_constructor_enforcement():
+    """CrossHair routes every class instantiation made by traced code through
+    enforce.manual_constructor (so that contracts on __new__/__init__ of classes carrying PEP316
+    invariants are enforced). No class of pyformlang, networkx or this harness carries a contract, and
+    the intersection builds hundreds of rule objects per path (measured: 45 % of the time of a path), so
+    instantiation is left to the interpreter here. Function/method contract enforcement is untouched."""
+    try:
+        from crosshair import enforce as _enforce
+    except Exception:
+        return
+    orig = _enforce.EnforcedConditions.trace_call
+    if getattr(orig, "_c17_patched", False):
+        return
+
+    def trace_call(self, frame, fn, binding_target):
+        if isinstance(fn, type):
+            return None
+        return orig(self, frame, fn, binding_target)
+
+    trace_call._c17_patched = True
+    _enforce.EnforcedConditions.trace_call = trace_call
+
+
 _native_sets()
+_no_constructor_enforcement()
 
 from pyformlang.indexed_grammar import (Rules, IndexedGrammar, EndRule, ProductionRule,   # noqa: E402
                                         ConsumptionRule, DuplicationRule)
